@@ -1,6 +1,8 @@
 """Shared helpers for the kernel checks (C08-C12, C14): symbolic inputs and matrix utilities."""
 from __future__ import annotations
 
+import ast
+
 from . import dag, literature as lit
 from .arr import Arr, matmul
 from .pe import PE
@@ -22,8 +24,20 @@ def _complex(pe_, a, k):
 
 def assume_distinct_couplings(text, env):
     """named regime assumption: distinct coupling symbols denote different values"""
-    if text in ("a1 == a0", "a0 == a1"):
-        return False
+    from . import pe as P
+
+    try:
+        t = ast.parse(text, mode="eval").body
+    except SyntaxError:
+        return None
+    if not (isinstance(t, ast.Compare) and len(t.ops) == 1 and isinstance(t.ops[0], (ast.Eq, ast.NotEq))):
+        return None
+    try:
+        a, b = (P.CURRENT_PE.eval(x, env) for x in (t.left, t.comparators[0]))
+    except Exception:
+        return None
+    if all(isinstance(v, dag.Node) and v.op == "sym" for v in (a, b)) and a is not b:   # judged on the values, not on the names of the variables
+        return isinstance(t.ops[0], ast.NotEq)
     return None
 
 
